@@ -237,7 +237,8 @@ def h_docs(entry: int, pres: int, dstate: int, pstate: int, didx: int, strat_cop
 
 
 # ---------------------------------------------------------------------------------------- argument reuse, look-alike names, half-made jobs
-LOOKALIKES = ["signac_statepoint.json.orig", "signac_job_document.json.bak", "signac_statepointXjson", "signac_statepoint.jsonl"]
+LOOKALIKES = ["signac_statepoint.json.orig", "signac_job_document.json.bak", "signac_statepointXjson", "signac_statepoint.jsonl",
+              "signac_statepoint.json", "signac_job_document.json"]      # the last two: signac's own names are data when they lie BELOW the job directory (a project nested in a job)
 
 
 def _reuse_case(entry, first, second, pres2):
@@ -291,16 +292,18 @@ def h_reuse(entry: int, first: int, second: int, pres2: bool):
     assert not problems
 
 
-def _lookalike_case(entry, nm, nested, recursive, didx):
+def _lookalike_case(entry, nm, nested, recursive, didx, common=True):
     """source-only data files whose names merely START like signac's own file names are ordinary non-excluded files"""
     problems = []
     name = LOOKALIKES[nm]
+    if nm >= 4 and not nested:
+        return []          # at the top of the job directory these are signac's own files
     rel = ("sub/" + name) if nested else name
     with SL.Scratch() as sc:
         src, dst = SL.build(sc.root, 3, 0, 0, 0, 0, 0)
         sj, dj = src.open_job(SL.SPS[0]), dst.open_job(SL.SPS[0])
         SL.put(sj.fn(rel), b"payload", SL.T_MID)
-        if nested:
+        if nested and common:
             SL.put(sj.fn("sub/c"), b"C", SL.T_MID)
             SL.put(dj.fn("sub/c"), b"C", SL.T_MID)      # the sub-directory exists on both sides: compared level by level
         bs = SL.snap(src.path)
@@ -327,6 +330,8 @@ def h_lookalike(entry: int, nm: int, nested: bool, recursive: bool, didx: int):
     entry, nm, nested, recursive, didx = ci(entry, 0, 1), ci(nm, 0, len(LOOKALIKES) - 1), cb(nested), cb(recursive), pick([0, 4], 0 if didx == 0 else 1)
     with nt():
         problems = _lookalike_case(entry, nm, nested, recursive, didx)
+        if nested:
+            problems += _lookalike_case(entry, nm, nested, recursive, didx, common=False)     # the sub-directory exists only in the source: copied as a tree
     reached()
     assert not problems
 
